@@ -118,6 +118,11 @@ func (p *Path) callFunction(fn *ssa.Function, args []Value, binds []Value, calle
 	if in, ok := lookupIntrinsic(fn); ok {
 		return in(p, fn, args)
 	}
+	if p.stubs != nil {
+		if s, ok := p.stubs[fn.Name()]; ok && fn.Parent() == nil && fn.Signature.Recv() == nil {
+			return p.callValue(s, args, caller, nil)
+		}
+	}
 	if fn.Synthetic == "package initializer" {
 		if fn.Pkg != nil && p.eng.transparent(fn.Pkg.Pkg.Path()) {
 			p.ensureInit(fn.Pkg)
